@@ -65,6 +65,8 @@ def c18(run):
     r_uaf.run(run, P)
     from rules import r_realloc
     r_realloc.run(run, P)
+    from rules import r_consume
+    r_consume.run(run, P)
     run.assumptions = ASSUME_COMMON + ["every allocation funnels through coap_malloc_type/coap_realloc_type/malloc/calloc/realloc/strdup",
                                        "'the next operation succeeds' is NOT decided"]
     return run.finish(
@@ -86,6 +88,8 @@ def c12(run):
     r_session.run_sess_evt(run, P)
     r_session.run_teardown(run, P)
     r_session.run_hashed(run, P)
+    from rules import r_consume
+    r_consume.run(run, P)
     from rules import r_ownlocal
     r_ownlocal.run(run, P)
     run.min_instances('R-OWN-LOCAL', 30)
@@ -97,7 +101,7 @@ def c12(run):
         "Reference discipline of sessions decided on every path: temporary references are released in the same function (R-REF-TMP); objects "
         "holding a session reference (computed: queue nodes, subscriptions, async entries) release it before they are freed or cleared "
         "(R-REF-HOLD); a server session is never freed without SERVER_SESSION_DEL and NEW is raised once (R-SESS-EVT); function-local owners "
-        "of strings/binaries/optlists/cache keys are disposed of on every path (R-OWN-LOCAL). Necessary for 'live while referenced, everything released'. After a holder's session reference was released the field is overwritten or the holder freed raw on every path (R-REF-HOLD stale); a session made in a function is freed there only after it was added to a session table (R-SESS-HASHED).")
+        "of strings/binaries/optlists/cache keys are disposed of on every path (R-OWN-LOCAL). Necessary for 'live while referenced, everything released'. After a holder's session reference was released the field is overwritten or the holder freed raw on every path (R-REF-HOLD stale); a session made in a function is freed there only after it was added to a session table (R-SESS-HASHED). A function that takes over an object it is handed agrees over all its failure returns on who owns the object afterwards (R-CONSUME-AGREE).")
 
 
 CODEC_UNITS = ('coap_pdu.c', 'coap_option.c')
@@ -319,6 +323,8 @@ def c09(run):
     from rules import r_cmpbound
     n = r_cmpbound.run(run, P, units=('coap_block.c',))
     run.require(n >= (15 if run.cfg == 'base' else 1), 'R-CMP-BOUND: fewer than 15 (base) / 1 (reduced configurations) key comparisons found in coap_block.c')
+    from rules import r_bodydone
+    r_bodydone.run(run, P)
     run.min_instances('R-RELEASE-ONCE', 5)
     run.assumptions = ASSUME_COMMON + ["body integrity, tiling, at-most-once delivery, token hiding and size fitting (arithmetic over runtime lengths and schedules) are NOT decided",
                                        "paths on which taking the global lock fails carry no obligations"]
@@ -327,7 +333,7 @@ def c09(run):
         "coap_block.c is reached only with the compared length known to be within (for equality look-ups: equal to) the length of both operands, so a "
         "look-up cannot match a state whose key differs in length or was compared over the wrong length (R-CMP-BOUND). (2) 'the sender's release callback runs exactly once'. For every function taking a release_func parameter, on "
         "every path with release_func not known NULL the callback is called exactly once, handed to a callee with the same obligation, or stored "
-        "into an lg_xmit that is linked into session->lg_xmit or deleted; coap_block_delete_lg_xmit calls it exactly once (R-RELEASE-ONCE).")
+        "into an lg_xmit that is linked into session->lg_xmit or deleted; coap_block_delete_lg_xmit calls it exactly once (R-RELEASE-ONCE). A reassembled request body is handed to the application from a block with the More bit set only on paths that found the record's no_more_seen flag set (R-BODY-COMPLETE; the Q-Block1 arm violates this and is a known finding).")
 
 
 def c20(run):
